@@ -158,6 +158,21 @@ def entry_points(d, v, tmp):
             written = json.load(f)
         return ("written", written)
 
+    BUN = {"type": "bundle", "id": "bundle--d83fce45-ef58-4c6c-a3f4-1fbc32e98c6e"}
+
+    def mem_store_add_bundle_dict():
+        s = stix2.MemoryStore()
+        s.add(dict(BUN, objects=[dict(d)]), version=v)
+        return s.get(sid)
+
+    def fs_sink_add_bundle_dict():
+        root = fs_dir()
+        stix2.FileSystemSink(root, allow_custom=True).add(dict(BUN, objects=[dict(d)]), version=v)
+        files = [os.path.join(dp, f) for dp, _, fs in os.walk(root) for f in fs]
+        with open(files[0], encoding="utf-8") as f:
+            written = json.load(f)
+        return ("written", written)
+
     def fs_store_add_get():
         root = fs_dir()
         st = stix2.FileSystemStore(root, allow_custom=True)
@@ -200,6 +215,11 @@ def entry_points(d, v, tmp):
             ("FileSystemSink.add(d, version)", fs_sink_add, "written"), ("FileSystemSink.add + FileSystemSource.get(version)", fs_store_add_get, "class"),
             ("FileSystemSource.get(id, version)", fs_source_get, "class"), ("FileSystemSource.all_versions(id, version)", fs_source_all_versions, "class"),
             ("FileSystemSource.query(filters, version)", fs_source_query, "class")]
+    if d.get("type") != "bundle":
+        # a bundle given as a dictionary is a list of objects to the sinks (the memory sink documents it so): the named
+        # version is for them
+        eps += [("MemoryStore.add(bundle dict, version)", mem_store_add_bundle_dict, "class"),
+                ("FileSystemSink.add(bundle dict, version)", fs_sink_add_bundle_dict, "written")]
     if "modified" in d:
         eps += [("FileSystemSource.get(id, version) [legacy flat file]", fs_legacy_get, "class"),
                 ("FileSystemSource.query(id, version) [legacy flat file]", fs_legacy_query, "class")]
